@@ -226,6 +226,8 @@ static int run_sched(const char *progf, const char *schedf, const char *outf) {
         for (int again = 1; again;) { again = 0; for (int t = 0; t < NT; t++) if (!finished[t]) { sem_post(&go[t]); sem_wait(&back); again = 1; } }
         alarm(0);
         for (int t = 0; t < NT; t++) pthread_join(th[t], NULL);
+        static long seen_forced;
+        if (forced) seen_forced++;
         vh_bprintf(&b, "{\"kind\":\"%s\",\"forced\":%ld,\"init\":[],", kindname, forced); forced = 0;
         emit_ops(&b, pairs);
         vh_bprintf(&b, ",\"final\":");
@@ -233,6 +235,7 @@ static int run_sched(const char *progf, const char *schedf, const char *outf) {
         vh_bprintf(&b, "}");
         vh_bflush(&b);
         rel();
+        if (seen_forced >= 3) break;            /* every forced unlock costs MAX_MUTEX_LOCK_WAIT sleeps: three such histories are enough */
     }
     vh_close();
     return 0;
